@@ -100,8 +100,14 @@ def site_writes(ctx, fn: FuncInfo) -> list[dict]:
         for t in r.resolve_call(n):
             if isinstance(t, FuncInfo) and t.qname in wrappers:
                 pi, yi = wrappers[t.qname]
-                if pi < len(n.args) and yi < len(n.args):
-                    out.append({"call": n, "path": n.args[pi], "payload": n.args[yi], "kind": "wrapper:" + t.name})
+                from .model import bind_args
+
+                # path and payload are the wrapper's parameters, however the call passes them (position or keyword)
+                b = bind_args(n, t, False)
+                ps = t.positional_params()
+                pe, ye = b.get(ps[pi]), b.get(ps[yi])
+                if pe is not None and ye is not None:
+                    out.append({"call": n, "path": pe, "payload": ye, "kind": "wrapper:" + t.name})
     return out
 
 
